@@ -3,8 +3,8 @@ package main
 func init() {
 	properties["C01"] = &Property{
 		Title: "blocks expand back to the input (round trip)",
-		Rules: []string{"R-TILE", "R-LITPAIR"},
-		Decided: "tiling of the block by literal runs and matches (cursor discipline, epilogue), LitLen/literal pairing.",
+		Rules: []string{"R-TILE", "R-LITPAIR", "R-INVALIDATE", "R-OSAP-RANGE", "R-SHRINK-WRAP", "R-SHRINK-PB"},
+		Decided: "tiling of the block by literal runs and matches (cursor discipline, epilogue), LitLen/literal pairing, re-basing/dropping of all search state on Shrink, recompute guard of OSAP's unverified edges.",
 		NotDecided: "byte-for-byte equality of the expansion; correctness of the 8-byte compare arithmetic, lcp/lcs, suffix.Sort/LCP/Segments.",
 	}
 	properties["C02"] = &Property{
@@ -79,5 +79,14 @@ func init() {
 		Rules: []string{"R-WRAP-ORDER", "R-READFROM", "R-READBOUND"},
 		Decided: "Shrink-before-ReadFrom, retry iff bytes were read, return discipline of the wrap loop; ReadFrom keeps bytes read with an error, leaves its loop only on error/full, returns the byte difference.",
 		NotDecided: "io.EOF stickiness (a property of the reader), equality of block sequences across chunkings (needs C01, C13).",
+	}
+}
+
+func init() {
+	properties["C13"] = &Property{
+		Title: "Reset ≡ new parser; determinism; instance isolation",
+		Rules: []string{"R-RESET-COVER", "R-COPY-CLOBBER", "R-NOGLOBAL", "R-NONDET"},
+		Decided: "every location Parse may write is re-initialised by the method Reset resolves to; no live element is clobbered when a reused backing array is re-grown; no package-level mutable state; no nondeterminism source reachable from the API.",
+		NotDecided: "equality of blocks as such (follows for location-abstracted state); effects of retained capacity are assumed invisible except where R-COPY-CLOBBER applies.",
 	}
 }
